@@ -20,7 +20,7 @@ def generate(seed, tier):
     rng = stream(seed, "c06")
     big = tier == "thorough" and rng.random() < 0.15
     names, style = gen_filter(rng, None, p_none=0.4)
-    spec = gen_instance(rng, huge=0.03, max_jobs=6 if big else 4, max_machines=5 if big else 4, max_ops=6 if big else 4,
+    spec = gen_instance(rng, huge=0.03, sparse_ids=0.03, large=0.008, max_jobs=6 if big else 4, max_machines=5 if big else 4, max_ops=6 if big else 4,
                         positive=True if names else None)
     faulty = rng.random() < 0.4
     sparse = rng.random() < 0.3
